@@ -396,7 +396,7 @@ Lemma in_map_key {V} (f : string -> V) d v ds : In (d, v) (map (fun x => (x, f x
 Proof. intro H. apply in_map_iff in H as (x & Hx & Hin). inversion Hx; subst. auto. Qed.
 
 (** the five per-message clauses of [step_P] (everything except the sum over tracked accounts) *)
-Definition step_core (strict : bool) (prev : snap) (o : op) (ok : bool) (cur : snap) : Prop :=
+Definition step_core (strict : bool) (blocked : list string) (prev : snap) (o : op) (ok : bool) (cur : snap) : Prop :=
   (ok = false -> cur = prev) /\
   (forall d v', In (d, v') (sn_supply cur) ->
      exists v, lookup d (sn_supply prev) = Some v /\ (v' <> v -> ok = true /\ supply_change_ok strict prev o d v v')) /\
@@ -408,15 +408,15 @@ Definition step_core (strict : bool) (prev : snap) (o : op) (ok : bool) (cur : s
      parse_denom (tf_denom sender sub) = Some (sender, sub)) /\
   (forall acct d b', In (acct, d, b') (sn_bal cur) ->
      exists b, lookup2 acct d (sn_bal prev) = Some b /\
-       (b' <> b -> ok = true /\ bal_change_ok o acct d b b' /\
+       (b' <> b -> ok = true /\ bal_change_ok blocked o acct d b b' /\
                    (validate_denom d = false -> acct = sender_of o /\ b' < b))).
 
-Lemma step_P_core strict prev o ok cur : step_P strict prev o ok cur -> step_core strict prev o ok cur.
+Lemma step_P_core strict blocked prev o ok cur : step_P strict blocked prev o ok cur -> step_core strict blocked prev o ok cur.
 Proof. unfold step_P, step_core. tauto. Qed.
 
 Lemma model_step_core blocked ds bs s o :
   inv s -> (forall sender sub, o = Create sender sub -> In (tf_denom sender sub) ds) ->
-  step_core false (snap_keys ds bs s) o (snd (deliver blocked s o)) (snap_keys ds bs (fst (deliver blocked s o))).
+  step_core false blocked (snap_keys ds bs s) o (snd (deliver blocked s o)) (snap_keys ds bs (fst (deliver blocked s o))).
 Proof.
   intros Hi Htr. unfold deliver. destruct (step blocked s o) as [s'|] eqn:E; simpl.
   2:{ unfold step_core. split; [auto|]. split; [|split; [|split; [|]]].
@@ -438,7 +438,7 @@ Proof.
     rewrite (lookup_map (admins s)), (lookup_map (admins s')) by auto. rewrite Ha, Ha'. auto.
   - intros acct d b' Hin. apply in_map_iff in Hin as ([x y] & Hx & Hin). simpl in Hx. inversion Hx; subst.
     exists (bal s acct d). split; [apply (lookup2_map (bal s)); auto|]. intro Hne. split; auto. split.
-    + destruct (balance_step _ _ _ _ _ _ E Hne) as [(sd & dv & amt & to & -> & Ha & Hr & Hb & _)|[(sd & dv & amt & fr & -> & Ha & Hr & Hb & Hp & Hle & _)|(dv & amt & -> & Hb & Hp & Hle)]];
+    + destruct (balance_step _ _ _ _ _ _ E Hne) as [(sd & dv & amt & to & -> & Ha & Hr & Hb & _ & Hbl)|[(sd & dv & amt & fr & -> & Ha & Hr & Hb & Hp & Hle & Hbl)|(dv & amt & -> & Hb & Hp & Hle)]];
         simpl; repeat split; auto; lia.
     + intro Hv. destruct (non_tf_step _ _ _ _ _ Hv E) as (_ & Hle & Hlt).
       specialize (Hle acct). destruct (Hlt acct) as [Hs _]; [lia|]. split; auto. lia.
